@@ -196,7 +196,7 @@ pub fn required_probes(property: &str) -> Vec<&'static str> {
         "C04" => vec!["c04_pool_full", "c04_probe_served", "c04_step_waited_20ms"],
         "C12" => vec!["c12_checked_statements", "c12_nondefault_value_checked", "c12_parameter_status_seen"],
         "C07" => vec!["c07_some_ban_seen", "c07_routed_around_ban", "c07_failure_judged", "c07_break_mid_statement", "c07_transparent_failover_after_timeout", "c07_ban_ended_and_replica_used_again"],
-        "C17" => vec!["c17_signal_raised", "c17_sigterm", "c17_idle_client_at_signal", "c17_mid_transaction_client_at_signal", "c17_in_progress_transaction_finished", "c17_new_client_during_shutdown", "c17_admin_login_during_shutdown", "c17_all_clients_gone_before_timeout", "c17_timeout_path"],
+        "C17" => vec!["c17_signal_raised", "c17_sigterm", "c17_idle_client_at_signal", "c17_mid_transaction_client_at_signal", "c17_in_progress_transaction_finished", "c17_new_client_during_shutdown", "c17_admin_login_during_shutdown", "c17_all_clients_gone_before_timeout", "c17_timeout_path", "c17_client_between_batch_messages_at_signal"],
         "C14" => vec!["c14_reload_happened", "c14_console_compared", "c14_transaction_straddled_reload", "c14_new_definition_used", "c14_removed_pool_refused", "c14_added_pool_served", "c14_pool_of_rejected_config_refused", "c14_roles_after_reload_checked"],
         "C18" => vec!["c18_sample_at_barrier", "c18_final_sample", "c18_totals_compared", "c18_monotone_compared"],
         "C09" => vec!["c09_md5_challenge_seen", "c09_valid_login", "c09_attack_wrong", "c09_attack_replay", "c09_attack_truncated", "c09_attack_hash_empty", "c09_attack_othermsg", "c09_attack_unknown_user", "c09_attack_admin_wrong", "c09_attack_old_password_after_change", "c09_valid_login_admitted", "c09_login_during_shutdown", "c09_attack_late_correct", "c09_tls_client_admitted", "c09_tls_client_refused", "client_tls_established"],
